@@ -130,7 +130,45 @@ static Probe probe_script(StringDictionary *d, const std::vector<Call> &script, 
       else if (magic == 0xF1F1F1F1u) { finished = true; off += 8; }
       else break;
     }
-    if (finished) { pr.run = run; g_stats["probe_forks"] += attempt + 1; g_mask_hash = fnv1a(g_mask_hash, pr.skip.data(), pr.skip.size()); return pr; }
+    if (finished) {
+      pr.run = run; g_stats["probe_forks"] += attempt + 1;
+      // stability pass: the same script once more in a child whose heap has been disturbed first.  An answer
+      // that changes is not a function of (dictionary, query) even in isolation (a wild read): it cannot serve
+      // as a reference, is excluded, and is reported to C07.
+      if (!getenv("VERIF_NO_STABILITY")) {
+        int sp[2]; if (pipe(sp)) { perror("pipe"); _exit(97); }
+        fflush(g_out);
+        pid_t p2 = fork();
+        if (p2 == 0) {
+          g_in_child = true; g_death_spec = nullptr; death_info_update();
+          close(sp[0]); int nul = open("/dev/null", O_WRONLY); dup2(nul, 2);
+          arm_watchdog(6.0);
+          std::vector<char *> junk;
+          for (int i = 0; i < 96; i++) { size_t sz = 16 + (size_t)((i * 2654435761u) % 4000); char *j = new char[sz]; memset(j, 0x5c, sz); junk.push_back(j); }
+          for (size_t i = 0; i < junk.size(); i += 2) delete[] junk[i];
+          ScriptRun r2 = run_script(d, script, &pr.skip, -1, 0);
+          ssize_t w = write(sp[1], r2.digests.data(), r2.digests.size() * sizeof(uint64_t)); (void)w;
+          _exit(0);
+        }
+        close(sp[1]);
+        std::string buf; char b[4096]; ssize_t n;
+        while ((n = read(sp[0], b, sizeof b)) > 0) buf.append(b, (size_t)n);
+        close(sp[0]);
+        int st2 = 0; waitpid(p2, &st2, 0);
+        if (WIFEXITED(st2) && WEXITSTATUS(st2) == 0 && buf.size() == script.size() * sizeof(uint64_t)) {
+          for (size_t i = 0; i < script.size(); i++) {
+            uint64_t d2; memcpy(&d2, &buf[i * sizeof(uint64_t)], sizeof d2);
+            if (!pr.skip[i] && d2 != pr.run.digests[i]) {
+              pr.skip[i] = 1; g_stats["calls_unstable"]++;
+              SymFailure f; f.call = i; f.what = ctx + " " + call_str(script[i]); f.report = "UNSTABLE answer: differs between two isolated executions with different heap layouts"; g_sym.push_back(f);
+            }
+          }
+          g_stats["stability_passes"]++;
+        } else g_stats["stability_pass_died"]++;
+      }
+      g_mask_hash = fnv1a(g_mask_hash, pr.skip.data(), pr.skip.size());
+      return pr;
+    }
     if (inflight < 0) { // died outside a call (iterator teardown): give up on this script
       SymFailure f; f.call = script.size(); f.what = ctx + " teardown"; f.report = err.substr(0, 3000); g_sym.push_back(f);
       pr.skip.assign(script.size(), 1); pr.run = run; return pr;
